@@ -359,9 +359,10 @@ def _norm_chain(text):
 
 
 def _pure_chain(node):
+    """a dotted chain whose links are names, calls and subscripts (f(x)[0].attr), down to a plain name"""
     v = node.value
-    while isinstance(v, ast.Attribute):
-        v = v.value
+    while isinstance(v, (ast.Attribute, ast.Call, ast.Subscript)):
+        v = v.func if isinstance(v, ast.Call) else v.value
     return isinstance(v, ast.Name)
 
 
